@@ -12,7 +12,7 @@ RULE = ("part 'levels': generated valid documents loaded at vlevel 0,1,2,3: same
         "through the canonicaliser between level 0 and the others, literally among 1,2,3), all accepted, version "
         "given or inferred; the same edit (rename of a referenced line, removal) gives the same document and graph "
         "at every level; an invalid sequence assigned to any segment of the Gfa is reported at the assignment at "
-        "level 3 and at the write at level 2; plus "
+        "level 3 and at the write at level 2, also for the segments merge_linear_paths() creates; plus "
         "mutated (possibly invalid) documents: accepted at level k implies accepted at every lower level. part "
         "'assign': programs of field/tag assignments on stand-alone lines (7 tag datatypes and 17 positional "
         "slots; values = string forms that the independent grammar accepts or rejects: pool values and their "
@@ -105,8 +105,17 @@ def _same_after_edit(case, lines, version, text):
 def _segments_have_the_level(case, lines, version, text):
     """An invalid sequence assigned to any segment of a Gfa is reported at the assignment at
     level 3 and at the write at level 2, whichever line it is and however the version was found."""
-    for k in (2, 3):
+    for k, merged in ((2, False), (3, False), (2, True), (3, True)):
         g = load_levels(lines, version, case.get("auto", False))[k]
+        if merged:
+            # segments made by a graph operation belong to the Gfa like the others
+            before = set(g.segment_names)
+            try:
+                g.merge_linear_paths()
+            except Exception:
+                continue
+            if set(g.segment_names) == before:
+                continue
         for l in list(g.segments):
             try:
                 l.sequence = "AC GT"
